@@ -106,6 +106,31 @@ func runC03(c *Check) {
 				if st, ok := ins.(*ssa.Store); ok && st.Addr == ssa.Value(closedGlobal) {
 					nStore++
 					_, isMake := st.Val.(*ssa.MakeChan)
+					if call, isCall := st.Val.(*ssa.Call); isCall && !isMake {
+						// a constructor function that makes the channel, closes it on every path and returns it
+						if H := CalleeFn(&call.Call); H != nil && H.Pkg == fn.Pkg && len(H.Blocks) > 0 && H.Signature.Results().Len() == 1 {
+							okH := true
+							for ret, vals := range ReturnValues(H, 0) {
+								mk, isMk := (ssa.Value)(nil), false
+								if len(vals) == 1 {
+									mk, isMk = vals[0].(*ssa.MakeChan)
+								}
+								closed := false
+								for _, cl := range BuiltinCalls(H, "close") {
+									if isMk && AllOrigins(cl.Common().Args[0], func(o ssa.Value) bool { return o == mk }) && Dominates(H, cl, ret) && !InLoop(cl) {
+										closed = true
+									}
+								}
+								if !isMk || !closed {
+									okH = false
+								}
+							}
+							if okH && len(Returns(H)) > 0 {
+								isMake = true
+								nClose++
+							}
+						}
+					}
 					c.Report(fn.Name() == "init" && isMake, P+".O2", "CLOSEDCHAN-ASSIGNED-ONCE", fn, ins.Pos(), "pre-closed channel", "the shared pre-closed channel is created once during package initialisation")
 				}
 				if cl, ok := ins.(ssa.CallInstruction); ok {
@@ -485,7 +510,7 @@ func c03Guarded(c *Check, id string, m *msgFields) {
 			if a.Write {
 				c.Report(writers[fn], id, "WHO-MAY-WRITE", fn, a.Ins.Pos(), k, "settlement fields are written only by NewMessage, Ack and Nack")
 			}
-			if !a.Write && exemptRead[fn] {
+			if !a.Write && exemptRead[fn] && f != m.State {
 				c.Report(true, id, "GUARDED-BY/accessor", fn, a.Ins.Pos(), k, "accessor read of a field that is assigned at most once for constructor-built messages (documented exception)")
 				continue
 			}
@@ -495,6 +520,21 @@ func c03Guarded(c *Check, id string, m *msgFields) {
 		}
 	}
 	c.Floor(id, "accesses to the settlement fields outside the constructor", nacc, 8)
+	// the accessors hand out the message's own channel, whatever its state
+	for _, pair := range []struct {
+		fn *ssa.Function
+		f  *types.Var
+	}{{m.Acked, m.AckCh}, {m.Nacked, m.NackCh}} {
+		for ret, vals := range ReturnValues(pair.fn, 0) {
+			okF := len(vals) > 0
+			for _, v := range vals {
+				if LoadedField(v) != pair.f {
+					okF = false
+				}
+			}
+			c.Report(okF, id, "ACCESSOR-RETURNS-FIELD", pair.fn, ret.Pos(), roleOf(m, pair.f), "the accessor returns the message's own channel field on every path (no state-dependent substitute read without the mutex)")
+		}
+	}
 	// composite literals elsewhere that set these fields would be stores too (covered by Accesses)
 
 }
